@@ -24,7 +24,47 @@ Expected(pats) == Head6 \o FlattenSeq([i \in 1..Len(pats) |-> <<Exclude, pats[i]
 SpecialSet == WS \cup {BSL, SQ, DQ, PCT, DOL, SEMI}
 NonTrivial(r) == \E i \in 1..Len(r.pats): \E j \in 1..Len(r.pats[i]): r.pats[i][j] \in SpecialSet \/ r.pats[i][j] < 32 \/ r.pats[i][j] >= 127
 
-Verdict(r) ==
+(* ---- the unit file as a whole, by systemd's unit-file rules (src/shared/conf-parser.c): lines end at LF or CR; leading white    *)
+(* space is dropped; empty lines and lines starting with # or ; are comments; [Name] opens a section; a line ending in a backslash *)
+(* continues on the next one; everything else is key=value. The ExecStart line judged above must be THE command of the service:   *)
+(* exactly one ExecStart assignment in the file, inside [Service].                                                              *)
+RECURSIVE SplitLines(_, _, _)
+SplitLines(t, i, cur) == IF i > Len(t) THEN <<cur>>
+                         ELSE IF t[i] \in {10, 13} THEN <<cur>> \o SplitLines(t, i + 1, <<>>)
+                         ELSE SplitLines(t, i + 1, Append(cur, t[i]))
+RECURSIVE LStrip(_)
+LStrip(l) == IF l # <<>> /\ l[1] \in {32, 9} THEN LStrip(Tail(l)) ELSE l
+RECURSIVE RStrip(_)
+RStrip(l) == IF l # <<>> /\ l[Len(l)] \in {32, 9} THEN RStrip(SubSeq(l, 1, Len(l) - 1)) ELSE l
+\* join continuation lines (a line that ends in a backslash swallows the next one, with a blank in between)
+RECURSIVE JoinCont(_)
+JoinCont(ls) == IF Len(ls) <= 1 THEN ls
+                ELSE IF ls[1] # <<>> /\ ls[1][Len(ls[1])] = 92 /\ ~(LStrip(ls[1])[1] \in {35, 59})
+                     THEN JoinCont(<<SubSeq(ls[1], 1, Len(ls[1]) - 1) \o <<32>> \o ls[2]>> \o SubSeq(ls, 3, Len(ls)))
+                     ELSE <<ls[1]>> \o JoinCont(Tail(ls))
+EqPos(l) == LET ps == {i \in 1..Len(l): l[i] = 61} IN IF ps = {} THEN 0 ELSE CHOOSE i \in ps: \A j \in ps: i <= j
+RECURSIVE Assignments(_, _)
+\* -> sequence of [sec, key, val] in file order
+Assignments(ls, sec) ==
+  IF ls = <<>> THEN <<>>
+  ELSE LET l == LStrip(ls[1]) IN
+       IF l = <<>> \/ l[1] \in {35, 59} THEN Assignments(Tail(ls), sec)
+       ELSE IF l[1] = 91 THEN (LET r == RStrip(l) IN
+                               IF r[Len(r)] = 93 THEN Assignments(Tail(ls), SubSeq(r, 2, Len(r) - 1)) ELSE Assignments(Tail(ls), sec))
+       ELSE LET e == EqPos(l) IN
+            IF e = 0 THEN Assignments(Tail(ls), sec)
+            ELSE <<[sec |-> sec, key |-> RStrip(SubSeq(l, 1, e - 1)), val |-> LStrip(SubSeq(l, e + 1, Len(l)))]>> \o Assignments(Tail(ls), sec)
+ExecStartKey == <<69, 120, 101, 99, 83, 116, 97, 114, 116>>
+ServiceSec == <<83, 101, 114, 118, 105, 99, 101>>
+UnitVerdict(r) ==
+  IF "text" \notin DOMAIN r \/ r.o # "ok" THEN {}
+  ELSE LET as == Assignments(JoinCont(SplitLines(r.text, 1, <<>>)), <<>>)
+           es == SelectSeq(as, LAMBDA a: a.key = ExecStartKey)
+       IN (IF Len(es) = 0 THEN {"C17-unit-has-no-ExecStart"} ELSE IF Len(es) > 1 THEN {"C17-unit-has-several-ExecStart-lines"} ELSE {})
+          \cup (IF \E i \in 1..Len(es): es[i].sec # ServiceSec THEN {"C17-ExecStart-outside-the-Service-section"} ELSE {})
+          \cup (IF Len(es) = 1 /\ es[1].val # r.line THEN {"C17-ExecStart-line-is-not-the-command-systemd-reads"} ELSE {})
+
+Verdict0(r) ==
   IF r.o # "ok" THEN {"C17-no-execstart-line-" \o r.o}
   ELSE LET d == ExecDecode(r.line) IN
        IF ~d.ok THEN {"C17-line-invalid"}
@@ -32,5 +72,7 @@ Verdict(r) ==
        ELSE IF Len(d.argv) # Len(Expected(r.pats)) THEN {"C17-argument-count"}
        ELSE IF \E i \in 1..Len(d.argv): d.argv[i] # Expected(r.pats)[i] /\ Expected(r.pats)[i] \in {Exclude, DevFile} \cup ToSet(Head6) \cup {<<47, SpecMarker(73)>>}
             THEN {"C17-surrounding-arguments"} ELSE {"C17-pattern-changed"}
+
+Verdict(r) == Verdict0(r) \cup UnitVerdict(r)
 
 =============================================================================
